@@ -1189,6 +1189,7 @@ def part_run(ctx, n):
         # classify by what was OBSERVED, codemod by codemod, with the project-wide declared names threaded through
         seen = {canon(x) for s in res["stores"] for x in s[0]}
         reported = False
+        written_where = {}
         for k, (dl, (idx, note), step) in enumerate(zip(cms, res["observed"], res["steps"])):
             names = []
             for x in dl:
@@ -1198,7 +1199,7 @@ def part_run(ctx, n):
             needed = [nm for nm in names if nm not in seen]
             if dl and not needed:
                 holders = [j for j, s in enumerate(res["stores"]) if any(canon(x) in names for x in s[0])]
-                earlier = [j for kk in range(k) for j in res["observed"][kk][0]]
+                earlier = [j for nm in names for j in written_where.get(nm, [])]     # stores that received THIS package earlier in the run
                 if idx:
                     elsewhere = bool(holders + earlier) and not any(j in holders + earlier for j in idx)
                     ctx.violation("kf_declared_elsewhere_fallthrough" if elsewhere else "c14_declared_added_again",
@@ -1213,6 +1214,8 @@ def part_run(ctx, n):
             elif dl:
                 if idx:
                     seen |= set(needed)
+                    for nm in needed:
+                        written_where.setdefault(nm, []).extend(idx)
         if not reported:
             ctx.violation("c14_run_spec", f"stores {list(zip(res['kinds'], res['stores']))}, codemods {cms}: observed {res['observed']} is not "
                           "'first able manifest once per package per run; declared => untouched and no failed notice'", replay)
